@@ -703,8 +703,16 @@ pub fn make_brancher(spec: &BrSpec, solver: &Solver, xs: &[X]) -> BoxB {
             if h > 0 {
                 bs.push(Box::new(ivv(*v, *w, &vars[..h], *sd)));
             }
-            bs.push(Box::new(ivv(*v, *w, &vars[h..], sd.wrapping_add(1))));
-            BoxB(Box::new(DynamicBrancher::new(bs)))
+            let last: Box<dyn Brancher> = Box::new(ivv(*v, *w, &vars[h..], sd.wrapping_add(1)));
+            if sd % 2 == 0 || bs.is_empty() {
+                bs.push(last);
+                BoxB(Box::new(DynamicBrancher::new(bs)))
+            } else {
+                // the other construction path
+                let mut d = DynamicBrancher::new(bs);
+                d.add_brancher(last);
+                BoxB(Box::new(d))
+            }
         }
         BrSpec::Alternating(s, v, w, sd) => {
             let st = [
